@@ -92,3 +92,46 @@ func (e *Env) ErrorDiags(r *Res) []string {
 	}
 	return out
 }
+
+// RejectDiags: lines that mean gosk refused (part of) the program -- error
+// level, or an info-level line that reports an error in words.  Plain
+// truncation warnings ("Value 300 out of range for DB, truncating") are not
+// refusals.
+func (e *Env) RejectDiags(r *Res) []string {
+	var out []string
+	for _, l := range r.Log {
+		ll := parseLog(l)
+		if e.benign[ll.Msg] {
+			continue
+		}
+		low := strings.ToLower(ll.Msg)
+		if strings.HasPrefix(low, "warning:") || ll.Level == "warn" || ll.Level == "warning" {
+			if !strings.Contains(low, "fail") && !strings.Contains(low, "not found") {
+				continue
+			}
+		}
+		if isDiagLine(l) {
+			out = append(out, l)
+		}
+	}
+	if strings.Contains(r.Stdout, "GOSK :") {
+		out = append(out, "stdout: "+strings.TrimSpace(r.Stdout))
+	}
+	return out
+}
+
+// accepted: the program went through without refusal; otherwise a note why not.
+func (e *Env) accepted(r *Res) (bool, string) {
+	switch {
+	case r.ParseErr != "":
+		return false, "parse error: " + oneLine(r.ParseErr, 80)
+	case r.Crashed():
+		return false, "crash (C13's business)"
+	case r.Died:
+		return false, "diagnosed exit"
+	}
+	if d := e.RejectDiags(r); len(d) > 0 {
+		return false, "diagnostic: " + oneLine(parseLog(d[0]).Msg, 100)
+	}
+	return true, ""
+}
